@@ -18,7 +18,7 @@ def run(ctx):
     remainder.run(ctx, fx, FILES)
     ctx.floor('R-REMAINDER.sites', 1)
     # a delta / value that is range-checked before it is packed is checked at full width
-    narrow.run(ctx, fx, FILES)
+    narrow.run(ctx, fx, fx.files() if ctx.tier == 'thorough' else FILES)
     ctx.floor('R-NARROWCHECK.casts', 8)
     # block base and in-block delta are both refused when they do not fit their configured width
     narrow.packed_value_checked(ctx, fx, "blob_store::sorted_uint_vec::SortedUintVecBuilder::compress_values",
